@@ -1,6 +1,6 @@
 (* Refinement of the bulk lookups (GetMany: Node.Fields / Indexes / Gets, as coded with every repair applied)
    to the map of single lookups. *)
-From Coq Require Import ZArith List Bool Lia.
+From Coq Require Import ZArith List Bool Lia FinFun.
 From DG Require Import CaseFormat ProtoWireRef ProtoWireRefProofs ProtoMsg ProtoMsgProofs
   ProtoGeneric ProtoGenericAlg ProtoGenericDom ProtoGenericKids ProtoGenericProofs ProtoGenericRefine ProtoGenericRefine2.
 Import ListNotations.
@@ -207,4 +207,200 @@ Proof.
   - assert (Hl : (length reqs <= i)%nat) by (apply nth_error_None; exact Hi).
     rewrite (proj2 (nth_error_None _ _)) by (rewrite fill_length, map_length; exact Hl).
     symmetry. apply nth_error_None. unfold many_of_kids. rewrite map_length. exact Hl.
+Qed.
+
+(* ------------------------------------------------------------------ SkipAllElements over the records of one field *)
+Lemma sae_unpacked pre num vals w2 ewt :
+  wf_wire (map (pair num) vals) = true -> inert num w2 ->
+  skip_all_elements all_fixes (pre ++ wenc (map (pair num) vals) ++ wenc w2) (plen pre) num false ewt =
+  SaOk (plen pre + plen (wenc (map (pair num) vals))) (plen vals).
+Proof.
+  intros Hwf Hin. unfold skip_all_elements.
+  set (buf := pre ++ wenc (map (pair num) vals) ++ wenc w2).
+  assert (Hlen : (length vals <= length buf)%nat).
+  { unfold buf. rewrite !app_length. pose proof (wenc_length_ge (map (pair num) vals)) as H. rewrite map_length in H. lia. }
+  replace (Datatypes.S (length buf)) with (length vals + Datatypes.S (length buf - length vals))%nat by lia.
+  unfold buf. rewrite sau_run by assumption. f_equal; lia.
+Qed.
+
+Lemma sae_packed pre num k xs rest :
+  1 <= num <= MAX_FIELD_NUMBER -> is_numeric k = true -> Forall (fun x => scalar_okb k x = true) xs ->
+  plen (penc k xs) < 9223372036854775808 ->
+  skip_all_elements all_fixes (pre ++ wenc_field (num, WBytes (penc k xs)) ++ rest) (plen pre) num true (wt_of_kind k) =
+  SaOk (plen pre + plen (wenc_field (num, WBytes (penc k xs)))) (plen xs).
+Proof.
+  intros Hn Hk Hall Hlen.
+  unfold skip_all_elements. change (f703 all_fixes) with true.
+  pose proof (plen_nonneg (penc k xs)) as Hp0.
+  set (lenb := varint_enc (plen (penc k xs))). set (tg := tagb num 2).
+  assert (E0 : pre ++ wenc_field (num, WBytes (penc k xs)) ++ rest = pre ++ tg ++ (lenb ++ penc k xs ++ rest)).
+  { rewrite wenc_field_tagb. cbn [fst snd wt_of_wval wenc_val]. fold tg lenb. repeat rewrite <- app_assoc. reflexivity. }
+  rewrite E0. unfold tg at 1. rewrite ctag_enc; [|exact Hn|unfold wt_ok; auto]. fold tg.
+  unfold aread_length. rewrite app_assoc, <- plen_app. unfold lenb at 1.
+  rewrite cvar_enc by (change (2 ^ 64) with 18446744073709551616; lia). fold lenb.
+  rewrite to_s64_small by lia.
+  destruct (Z.ltb_spec (plen (penc k xs)) 0); [lia|]. cbn [orb].
+  assert (Hfit : plen (pre ++ tg) + plen lenb + plen (penc k xs) <= plen ((pre ++ tg) ++ lenb ++ penc k xs ++ rest)).
+  { rewrite !plen_app. pose proof (plen_nonneg rest). lia. }
+  destruct (Z.gtb_spec (plen (pre ++ tg) + plen lenb + plen (penc k xs)) (plen ((pre ++ tg) ++ lenb ++ penc k xs ++ rest))); [lia|].
+  assert (Hxl : (length xs <= length ((pre ++ tg) ++ lenb ++ penc k xs ++ rest))%nat).
+  { rewrite !app_length. pose proof (penc_len k xs). lia. }
+  replace (Datatypes.S (length ((pre ++ tg) ++ lenb ++ penc k xs ++ rest)))
+    with (length xs + Datatypes.S (length ((pre ++ tg) ++ lenb ++ penc k xs ++ rest) - length xs))%nat by lia.
+  rewrite app_assoc. rewrite <- plen_app.
+  rewrite (sap_run k xs ((pre ++ tg) ++ lenb) rest _ 0 _ Hk Hall eq_refl).
+  rewrite Z.eqb_refl. f_equal; try lia.
+  rewrite wenc_field_tagb. cbn [fst snd wt_of_wval wenc_val]. fold tg lenb. rewrite !plen_app. lia.
+Qed.
+
+(* what the Fields loop reads at the first record of a field *)
+Lemma field_hit S lbl t n v pre w2 :
+  wf_fld S lbl t v = true -> 1 <= n <= MAX_FIELD_NUMBER -> inert n w2 ->
+  plen (wenc (wfld n v)) < 9223372036854775808 ->
+  let buf := pre ++ wenc (wfld n v) ++ wenc w2 in
+  exists wt0 e, ctag buf (plen pre) = Some (n, wt0, plen (tagb n wt0)) /\
+    askip buf (plen pre + plen (tagb n wt0)) wt0 = SkOk e /\
+    (lbl = LSingular -> e = plen pre + plen (wenc (wfld n v)) /\ slice buf (plen pre + plen (tagb n wt0)) e = encode_elem v) /\
+    (lbl <> LSingular -> exists c, skip_all_elements all_fixes buf (plen pre) n (desc_packed lbl t) (elem_wt t) =
+                                   SaOk (plen pre + plen (wenc (wfld n v))) c).
+Proof.
+  intros Hwf Hn Hin Hlen buf. pose proof (wfld_wire _ _ _ _ n Hwf Hn) as Hww.
+  destruct (val_tag S lbl t n v pre (wenc w2) Hwf Hn) as [w0 [ws [Ef [Hw0 [Hws [Hc Eb]]]]]].
+  destruct (wfld_fvals _ _ _ _ n Hwf) as [Efv _].
+  exists (wt_of_wval w0), (plen (pre ++ tagb n (wt_of_wval w0)) + plen (wenc_val w0)).
+  split; [exact Hc|]. split.
+  { unfold buf. rewrite Eb. rewrite <- plen_app. apply askip_val. exact Hw0. }
+  split.
+  - intros ->. destruct (wf_singular_facts _ _ _ Hwf) as [Hw [Hwt [Htt Ee]]].
+    assert (Ew : w0 = sval v /\ ws = []) by (destruct v; cbn [wf_fld] in Hwf; try discriminate; cbn [fvals] in Ef; inversion Ef; auto).
+    destruct Ew as [-> ->]. split.
+    + rewrite (wfld_single _ _ _ n Hwf). unfold wenc. cbn [flat_map]. rewrite app_nil_r, wenc_field_tagb. cbn [fst snd]. rewrite !plen_app. lia.
+    + unfold buf. rewrite Eb. rewrite <- plen_app. rewrite slice_app. symmetry. exact Ee.
+  - intros Hns. unfold buf. destruct lbl as [|p|kk]; [contradiction| |].
+    + destruct v as [| | |q vs|]; try (cbn [wf_fld] in Hwf; discriminate).
+      destruct (wf_list_facts _ _ _ _ _ n Hwf) as [Hq [Hne [Hall Hcase]]]. cbn [desc_packed]. rewrite <- Hq.
+      destruct q.
+      * destruct Hcase as [k [xs [Et [Hk [Evs [Hxs [Ew Hl]]]]]]]. subst t. rewrite Ew in *.
+        exists (plen xs). unfold elem_wt. cbn [kind_of_type].
+        assert (Ewn : wenc [(n, WBytes (penc k xs))] = wenc_field (n, WBytes (penc k xs))) by (unfold wenc; cbn [flat_map]; apply app_nil_r).
+        rewrite Ewn in *. apply sae_packed; try assumption.
+        rewrite wenc_field_tagb in Hlen. cbn [fst snd wenc_val] in Hlen. rewrite !plen_app in Hlen.
+        pose proof (plen_nonneg (tagb n (wt_of_wval (WBytes (penc k xs))))). pose proof (plen_nonneg (varint_enc (plen (penc k xs)))). lia.
+      * exists (plen (fvals (VList false vs))). rewrite Efv in *. apply sae_unpacked; assumption.
+    + exists (plen (fvals v)). cbn [desc_packed]. rewrite Efv in *. apply sae_unpacked; assumption.
+Qed.
+
+Lemma set_first_ext {A} p p' (x : A) : (forall i, p i = p' i) -> forall l i, set_first p x i l = set_first p' x i l.
+Proof. intros H. induction l as [|y l IH]; intros i; [reflexivity|]. cbn [set_first]. rewrite H, IH. reflexivity. Qed.
+
+(* ------------------------------------------------------------------ Node.Fields *)
+Lemma fields_loop_fill S md fs : forall pre reqs acc count need fuel,
+  fields_wf S md fs -> nodupb Z.eqb (map fst fs) = true -> plen (pre ++ encode_msg fs) < 9223372036854775808 ->
+  a_fields_loop (length fs + Datatypes.S fuel) all_fixes md (pre ++ encode_msg fs) (plen pre) reqs acc count need =
+  MOk (fill (map (msg_child md) fs) reqs acc count need).
+Proof.
+  induction fs as [|[n v] fs IH]; intros pre reqs acc count need fuel Hf Hnd Hlen.
+  - cbn [length plus a_fields_loop map fill]. change (encode_msg []) with (@nil Z). rewrite app_nil_r, Z.ltb_irrefl. reflexivity.
+  - cbn [map fst nodupb] in Hnd. apply andb_true_iff in Hnd as [Hx Hnd].
+    inversion Hf as [|? ? [fd [Hfd [Hn Hv]]] Hf']; subst. cbn [fst snd] in *.
+    destruct (fields_wf_wire _ _ _ Hf') as [Hw2 Hne2].
+    assert (Hin : inert n (msg_wire fs)).
+    { split; [exact Hw2|]. apply Hne2. apply Forall_forall. intros [m x] Hmx E. cbn [fst] in E. subst m.
+      apply negb_true_iff in Hx. assert (existsb (Z.eqb n) (map fst fs) = true).
+      { apply existsb_exists. exists n. split; [apply (in_map fst _ _ Hmx)|apply Z.eqb_refl]. } congruence. }
+    rewrite encode_msg_cons in *. change (encode_msg fs) with (wenc (msg_wire fs)) in *.
+    assert (Hl1 : plen (wenc (wfld n v)) < 9223372036854775808).
+    { rewrite !plen_app in Hlen. pose proof (plen_nonneg pre). pose proof (plen_nonneg (wenc (msg_wire fs))). lia. }
+    destruct (field_hit S (fd_label fd) (fd_type fd) n v pre (msg_wire fs) Hv Hn Hin Hl1) as [wt0 [e [Hc [Hs [Hsing Hrun]]]]].
+    cbn [length plus a_fields_loop map fill].
+    assert (Hlt : plen pre < plen (pre ++ wenc (wfld n v) ++ wenc (msg_wire fs))).
+    { rewrite !plen_app. destruct (wfld_fvals _ _ _ _ n Hv) as [E Hne]. destruct (fvals v) as [|w0 ws]; [contradiction|]. rewrite E. cbn [map].
+      rewrite wenc_cons, plen_app. pose proof (wenc_field_plen_pos (n, w0)). pose proof (plen_nonneg (wenc (map (pair n) ws))). pose proof (plen_nonneg (wenc (msg_wire fs))). lia. }
+    destruct (Z.ltb_spec (plen pre) (plen (pre ++ wenc (wfld n v) ++ wenc (msg_wire fs)))); [|lia]. cbn [andb].
+    destruct (count <? need); [|reflexivity].
+    rewrite Hc, Hs, Hfd.
+    assert (Hk : msg_child md (n, v) = ATree (PField n) (node_type (fd_label fd) (fd_type fd)) (node_raw (fd_label fd) n v) [])
+      by (unfold msg_child; cbn [fst snd]; rewrite Hfd; reflexivity).
+    rewrite Hk. cbn [kid_step kid_out].
+    assert (Hext : forall i, req_matches reqs (fun s => match s with PField k => k =? n | _ => false end) i =
+                             req_matches reqs (fun s => step_eqb (PField n) s) i).
+    { intros i. unfold req_matches. destruct (nth_error reqs i) as [[ | | | | ]|]; cbn [step_eqb]; try reflexivity. apply Z.eqb_sym. }
+    assert (Hhit : match fd_label fd with
+                   | LSingular => Some (kind_of_type (fd_type fd), slice (pre ++ wenc (wfld n v) ++ wenc (msg_wire fs)) (plen pre + plen (tagb n wt0)) e, e)
+                   | LRepeated p => match skip_all_elements all_fixes (pre ++ wenc (wfld n v) ++ wenc (msg_wire fs)) (plen pre) n (desc_packed (LRepeated p) (fd_type fd)) (elem_wt (fd_type fd)) with
+                                    | SaOk e' _ => Some (node_type (LRepeated p) (fd_type fd), slice (pre ++ wenc (wfld n v) ++ wenc (msg_wire fs)) (plen pre) e', e')
+                                    | _ => None end
+                   | LMap kk => match skip_all_elements all_fixes (pre ++ wenc (wfld n v) ++ wenc (msg_wire fs)) (plen pre) n (desc_packed (LMap kk) (fd_type fd)) (elem_wt (fd_type fd)) with
+                                | SaOk e' _ => Some (node_type (LMap kk) (fd_type fd), slice (pre ++ wenc (wfld n v) ++ wenc (msg_wire fs)) (plen pre) e', e')
+                                | _ => None end
+                   end = Some (node_type (fd_label fd) (fd_type fd), node_raw (fd_label fd) n v, plen (pre ++ wenc (wfld n v)))).
+    { destruct (fd_label fd) as [|p|kk] eqn:El.
+      - destruct (Hsing eq_refl) as [He Hsl].  rewrite Hsl, He. cbn [node_type node_raw]. rewrite plen_app. reflexivity.
+      - destruct (Hrun ltac:(discriminate)) as [c Hc'].  rewrite Hc'. rewrite slice_app. cbn [node_raw]. rewrite plen_app. reflexivity.
+      - destruct (Hrun ltac:(discriminate)) as [c Hc'].  rewrite Hc'. rewrite slice_app. cbn [node_raw]. rewrite plen_app. reflexivity. }
+    rewrite Hhit.
+    rewrite (set_first_ext _ _ _ Hext).
+    destruct (set_first (req_matches reqs (fun s => step_eqb (PField n) s)) (node_type (fd_label fd) (fd_type fd), node_raw (fd_label fd) n v) 0 acc) as [acc' b].
+    rewrite app_assoc. apply IH; [exact Hf'|exact Hnd|rewrite <- app_assoc; exact Hlen].
+Qed.
+
+Lemma nodupb_z l : nodupb Z.eqb l = true -> NoDup l.
+Proof.
+  induction l as [|x l IH]; intros H; [constructor|]. cbn [nodupb] in H. apply andb_true_iff in H as [H1 H2].
+  constructor; [|apply IH; exact H2]. intros Hin. apply negb_true_iff in H1.
+  assert (existsb (Z.eqb x) l = true) by (apply existsb_exists; exists x; split; [exact Hin|apply Z.eqb_refl]). congruence.
+Qed.
+
+Lemma msg_kids_steps md fs : map kid_step (map (msg_child md) fs) = map PField (map fst fs).
+Proof.
+  induction fs as [|[n v] fs IH]; [reflexivity|]. cbn [map fst]. rewrite IH. f_equal.
+  unfold msg_child. cbn [fst snd]. destruct (find_field md n); reflexivity.
+Qed.
+
+Lemma msg_kids_ok md fs : nodupb Z.eqb (map fst fs) = true ->
+  NoDup (map kid_step (map (msg_child md) fs)) /\
+  Forall (fun k => step_eqb (kid_step k) (kid_step k) = true) (map (msg_child md) fs).
+Proof.
+  intros H. split.
+  - rewrite msg_kids_steps. apply FinFun.Injective_map_NoDup; [intros a b E; inversion E; reflexivity|apply nodupb_z; exact H].
+  - apply Forall_forall. intros k Hk. apply in_map_iff in Hk. destruct Hk as [[n v] [<- _]].
+    unfold msg_child. cbn [fst snd]. destruct (find_field md n); cbn [kid_step step_eqb]; apply Z.eqb_refl.
+Qed.
+
+(* the node of a nested message, as every lookup returns it: length prefix + payload *)
+Definition msg_node (name : list Z) (num : Z) (fs : pmsg) : anode :=
+  mk_anode K_MESSAGE (encode_elem (VMsg fs)) 0 false LSingular (TMsg name) num.
+
+Definition is_field_req (s : pstep) : bool := match s with PField _ => true | _ => false end.
+
+Theorem getmany_fields_kids S name fs reqs nd :
+  wf_fld S LSingular (TMsg name) (VMsg fs) = true -> plen (encode_elem (VMsg fs)) < 2 ^ 63 ->
+  nd = root_node name (encode_msg fs) \/ (exists num, nd = msg_node name num fs) ->
+  NoDup reqs -> (exists n r, reqs = PField n :: r) ->
+  a_getmany all_fixes S nd reqs = MOk (many_of_kids (spec_children S LSingular (TMsg name) (VMsg fs)) reqs).
+Proof.
+  intros Hwf Hlen Hnd Hdup [n0 [r0 Er]]. destruct (wf_msg_facts _ _ _ Hwf) as [md [Hfm [Hnodup [Hl64 Hfs]]]].
+  destruct (msg_kids_ok md fs Hnodup) as [Hk1 Hk2].
+  change (2 ^ 63) with 9223372036854775808 in Hlen.
+  assert (Ee : encode_elem (VMsg fs) = varint_enc (plen (encode_msg fs)) ++ encode_msg fs).
+  { destruct (wf_singular_facts _ _ _ Hwf) as [_ [_ [_ E]]]. rewrite E. reflexivity. }
+  rewrite Ee, plen_app in Hlen. pose proof (plen_nonneg (varint_enc (plen (encode_msg fs)))) as Hp1. pose proof (plen_nonneg (encode_msg fs)) as Hp2.
+  cbn [spec_children]. rewrite Hfm. change (map _ fs) with (map (msg_child md) fs).
+  rewrite <- (fill_is_map reqs _ Hdup Hk1 Hk2).
+  unfold a_getmany. rewrite Er. rewrite <- Er.
+  destruct Hnd as [-> | [num ->]].
+  - unfold root_node, msg_of. cbn [an_t an_raw an_root an_ty negb]. change (K_MESSAGE =? K_MESSAGE) with true. cbn [negb]. rewrite Hfm.
+    destruct (fuel_split _ _ (encode_msg_len _ _ _ Hfs)) as [f Ef]. rewrite Ef.
+    apply (fields_loop_fill S md fs [] reqs _ 0 (plen reqs) f Hfs Hnodup). cbn [app]. lia.
+  - unfold msg_node, msg_of. cbn [an_t an_raw an_root an_ty negb]. change (K_MESSAGE =? K_MESSAGE) with true. cbn [negb]. rewrite Hfm.
+    rewrite Ee.
+    assert (Hal : aread_length (varint_enc (plen (encode_msg fs)) ++ encode_msg fs) 0 =
+                  Some (plen (encode_msg fs), plen (varint_enc (plen (encode_msg fs))))).
+    { unfold aread_length. pose proof (cvar_enc [] (plen (encode_msg fs)) (encode_msg fs)) as Hc. cbn [app] in Hc. change (plen (@nil Z)) with 0 in Hc.
+      rewrite Hc by (change (2 ^ 64) with 18446744073709551616; lia). rewrite to_s64_small by lia. reflexivity. }
+    rewrite Hal.
+    assert (Hfu : (length fs <= length (varint_enc (plen (encode_msg fs)) ++ encode_msg fs))%nat)
+      by (rewrite app_length; pose proof (encode_msg_len _ _ _ Hfs); lia).
+    destruct (fuel_split _ _ Hfu) as [f Ef]. rewrite Ef.
+    apply (fields_loop_fill S md fs _ reqs _ 0 (plen reqs) f Hfs Hnodup). rewrite plen_app. lia.
 Qed.
